@@ -12,7 +12,7 @@ One JSON object per input line, one per output line.
                | {"obj":ref,"rem":dir,"dirmode":bool,"items":[…]}   (a config / directory given as a Path object)
   {"op":"run","cwd":c,"cpd":null|d,"items":[…]}           → the same for `runItems` (a command line), plus "nofail", "stable"
   {"op":"runfs","names":[p,…],"edges":[[from,seg,to],…],"cwd":k,"cpd":null|d,"items":[…]}
-        → `runItemsF` over the file system given by the table (directory 0 = "/"): {"ok","trace","spec","good","exist","nofail","cwd":phys,"cpd"}
+        → `runItemsF` over the file system given by the table (directory 0 = "/"): {"ok","trace","spec","exist","oldok" (the bracket before 6e92c59),"nofail","cwd":phys,"cpd"}
   {"op":"checktype","sat":bool,"v":s,"default":null|s} → {"r":"path"|"str"|"reject"}   (`checkTypePath`)
   {"op":"mkarg","obj":{"relative","absolute","cwd"}|null,"path":p,"expanded":e,"cwdarg":null|c,"oscwd":c} → mkPathArg
 -/
@@ -120,7 +120,8 @@ def step (j : Json) : Json :=
     let r := runItemsF fs items s
     Json.mkObj [("ok", .bool r.ok), ("trace", .arr (r.trace.map resolvedToJson).toArray),
       ("spec", .arr ((specItemsF fs cwd items).map resolvedToJson).toArray),
-      ("good", .bool (goodItemsF fs cwd items)), ("exist", .bool (existItemsF fs cwd items)),
+      ("exist", .bool (existItemsF fs cwd items)),
+      ("oldok", .bool (runItemsG oldBracket fs items s).ok),
       ("nofail", .bool (noFailItems items)),
       ("cwd", .str (String.ofList (fs.phys r.st.cwd))),
       ("cpd", match r.st.cpd with | some d => .str (String.ofList d) | none => .null)]
